@@ -38,6 +38,7 @@ def run(ctx):
     _run_main(ctx)
     _shared_r4(ctx)
     _shared_r5(ctx)
+    _round6(ctx)
 
 
 def _run_main(ctx):
@@ -241,3 +242,13 @@ def _shared_r5(ctx):
     from rules import arms as A
     with ctx.rule('R01.11', "frames issued through any channel reach the write path: every channel id has its own event token, distinct from the I/O loop's own (shared with C10)", floor=1) as r:
         A.include(ctx, r, 'c10', 'R10.7', pick=('special-tokens-disjoint', 'token-dispatch-total'))
+
+
+def _round6(ctx):
+    """Found by seeding round 6 (a fairness budget on the hand-off queues strands what is left in them)."""
+    from rules import arms as A
+    with ctx.rule('R01.12', 'no byte is lost in the hand-off: each wake-up of a channel queue reads it until it is empty', floor=2) as r:
+        A.drains_until_empty(ctx, r, 'handle_channel_readable:until-empty', 'io_loop::Inner::handle_channel_readable', ['self', 'channel_id'],
+                             'mio_extras::channel::Receiver::try_recv(', other_exits=('io_loop::channel_slots::ChannelSlots::get(self.chan_slots, channel_id) ~ None',))
+        A.drains_until_empty(ctx, r, 'handle_channel0_readable:until-empty', 'io_loop::Inner::handle_channel0_readable', ['self', 'ch0_slot'],
+                             'mio_extras::channel::Receiver::try_recv(')
